@@ -11,6 +11,9 @@ Init == \/ \E m \in 1..K, l \in 1..K, n \in 1..K, ta \in Bool, tb \in Bool, bad 
              c = [m |-> m, l |-> l, n |-> n, ta |-> ta, tb |-> tb, bad |-> bad]
         \/ \E l \in ((K + 1)..KV) \cup {64, 65, 70, 96, 97, 130}, ta \in Bool, tb \in Bool, bad \in 0..1 :
              c = [m |-> 1, l |-> l, n |-> 1, ta |-> ta, tb |-> tb, bad |-> bad]
+        \* long inner dimension with non-trivial outer ones (a kernel chosen by the inner length must still lay out B and C correctly)
+        \/ \E s \in {<<2, 64, 3>>, <<3, 65, 5>>, <<2, 70, 1>>, <<1, 96, 4>>, <<3, 130, 2>>, <<5, 64, 2>>}, ta \in Bool, tb \in Bool, bad \in 0..1 :
+             c = [m |-> s[1], l |-> s[2], n |-> s[3], ta |-> ta, tb |-> tb, bad |-> bad]
 Next == UNCHANGED c
 Spec == Init /\ [][Next]_c
 
